@@ -71,7 +71,8 @@ func leafVals(k Kind, thorough bool) []any {
 		return []any{[]int{1, 2}, []int{2, 5, 4, 3}, []int{1, 2, 840, 113549}, []int{2, 999, 1}, []int{0, 39}, []int{1, 2, 2147483647}}
 	case KStr:
 		// "Ł", "аб", "中": every rune's low byte is a PrintableString character, none of them is ASCII
-		return []any{"", "a", "Test User 1", "a*b", "x@y.z", "é", "12 3", "a&b", "Ł", "аб", "中-1"}
+		// "'()+,-./:=?" and the letters / digits at the ends of their ranges: the whole PrintableString alphabet is touched
+		return []any{"", "a", "Test User 1", "a*b", "x@y.z", "é", "12 3", "a&b", "Ł", "аб", "中-1", "'()+,-./:=?", "AZaz09 ", "a=b", "a_b", "a\"b"}
 	case KBytes:
 		v := []any{[]byte{}, []byte{0}, []byte{1, 2, 3}, rep7(127), rep7(128), rep7(255), rep7(256)}
 		if thorough {
